@@ -50,7 +50,7 @@ def pop_layout(m):
     return pops
 
 
-def build_pop(m, scale=1.0, delay_jitter=0.0, name='popnet'):
+def build_pop(m, scale=1.0, delay_jitter=0.0, name='popnet', zero_spread=False):
     """The same model as PopulationTemplate / Connectivity objects: one population per kind with per-unit params,
     one Connectivity per (source population, target population, lag) carrying the weight matrix W[target, source]."""
     import numpy as np
@@ -75,7 +75,7 @@ def build_pop(m, scale=1.0, delay_jitter=0.0, name='popnet'):
             W = float(W.flat[0])          # uniform all-to-all block: the scalar (global) weight form
         conns.append(Connectivity(f'p{ks}/lin{ks}/x', f'p{kt}/lin{kt}/u', W,
                                   delays=((lag + delay_jitter) * scale if lag else None),
-                                  spread=(spread * scale if spread else None)))
+                                  spread=(spread * scale if spread else (0.0 if zero_spread and lag else None))))
     return CircuitTemplate(name, populations=populations, connections=conns)
 
 
@@ -92,11 +92,11 @@ def inputs_of(m, scale=1.0, steps=None):
 
 
 def run_model(m, cfg, scale=1.0, precision='float64', backend='default', cutoff_shift=0.0, node_order=None,
-              delay_jitter=0.0, decorator=None, form='nodes', decimal=False, int_delays=False, **kw):
+              delay_jitter=0.0, decorator=None, form='nodes', decimal=False, int_delays=False, zero_spread=False, **kw):
     """Returns dict(index=[...], rows=[[x_1..x_n] per row]) or dict(exc=type name)."""
     import numpy as np
     warnings.filterwarnings('ignore')
-    circ = build(m, scale, node_order, delay_jitter, int_delays=int_delays) if form == 'nodes' else build_pop(m, scale, delay_jitter)
+    circ = build(m, scale, node_order, delay_jitter, int_delays=int_delays) if form == 'nodes' else build_pop(m, scale, delay_jitter, zero_spread=zero_spread)
     steps, store = cfg['steps'], cfg['store']
     T, dt, dts = steps * scale, scale, store * scale
     cutoff = max(cfg['cut'] - cutoff_shift, 0) * scale
